@@ -42,6 +42,37 @@ pub const SUBS: &[SubDef] = &[
 ];
 
 fn run(ctx: &Ctx) {
+    // elapsed time is not an input of the statement: a defragmentation left alone for a while continues as if no time had passed. One
+    // parser is given the first fragment of a message now and the last one at the end of the run, after at least 2 s (quick) / 65 s
+    // (thorough); it waits on its own thread while the other sub-checks run
+    let gap = std::time::Duration::from_secs(ctx.pick(2, 65));
+    let waiter = std::thread::spawn(move || -> Result<u64, (String, String)> {
+        let msg = MHs::Finished(vec![0x42; 36]).to_bytes();
+        let hb = vec![1u8, 0, 4, 9, 8, 7, 6];
+        let mut ph = TlsRecordsParser::default();
+        let mut pb = TlsRecordsParser::default();
+        let r1 = summarize(ph.parse_record(Rec::new(0x16, 0x0303, msg[..10].to_vec()).raw()));
+        let r2 = summarize(pb.parse_record(Rec::new(0x18, 0x0303, hb[..2].to_vec()).raw()));
+        if !matches!(r1, Sum::Incomplete(_)) || !matches!(r2, Sum::Incomplete(_)) {
+            return Err(("C07:time-gap:first".into(), format!("first fragments answered {} / {}", show_sum(&r1), show_sum(&r2))));
+        }
+        let start = std::time::Instant::now();
+        while start.elapsed() < gap {
+            std::thread::sleep(std::time::Duration::from_millis(200));
+            crate::alloc::progress();
+        }
+        let waited = start.elapsed().as_secs();
+        let r1 = summarize(ph.parse_record(Rec::new(0x16, 0x0303, msg[10..].to_vec()).raw()));
+        let r2 = summarize(pb.parse_record(Rec::new(0x18, 0x0303, hb[2..].to_vec()).raw()));
+        let want1 = Sum::Ok { msgs: vec![MMsg::Hs(MHs::Finished(vec![0x42; 36]))], rem: vec![] };
+        if r1 != want1 {
+            return Err(("C07:time-gap:handshake".into(), format!("a Finished message whose second fragment arrives {} s after the first: the last fragment answers {}, accumulate-then-parse gives the message", waited, show_sum(&r1))));
+        }
+        if !matches!(r2, Sum::Ok { .. }) || ph.defrag_in_progress() || pb.defrag_in_progress() {
+            return Err(("C07:time-gap:heartbeat".into(), format!("a heartbeat whose second fragment arrives {} s after the first: the last fragment answers {}", waited, show_sum(&r2))));
+        }
+        Ok(waited)
+    });
     ctx.run_tape("splits", splits, ctx.pick(18_000, 300_000), 600);
     ctx.run_tape("refusals", refusals, ctx.pick(12_000, 200_000), 600);
     ctx.run_tape("history", history, ctx.pick(18_000, 300_000), if ctx.tier == Tier::Quick { 1200 } else { 3000 });
@@ -77,6 +108,18 @@ fn run(ctx: &Ctx) {
         }
         obs.sample(json!({"continuation_sizes": sizes.to_vec()}));
         Ok(())
+    });
+    ctx.run_fn("time_gap", true, "one handshake and one heartbeat defragmentation left alone for 2 s (quick) / 65 s (thorough) between the first and the last fragment", move |obs| {
+        match waiter.join() {
+            Ok(Ok(waited)) => {
+                obs.evals_add(2);
+                obs.nontrivial(waited);
+                obs.sample(json!({"seconds_between_fragments": waited}));
+                Ok(())
+            }
+            Ok(Err((sig, msg))) => fail(sig, msg),
+            Err(_) => fail("panic:C07:time-gap", "the waiting thread panicked"),
+        }
     });
 }
 
